@@ -138,11 +138,20 @@ class SimComp(TimeComponent):
         self._name = spec["name"]
         self._time = dt(spec["start"])
         self.k = 0           # number of completed updates
-        self.pulls = {i["name"]: [] for i in spec["inputs"]}
+        self.pulls = {i["name"]: [] for i in spec["inputs"] if not i.get("alarm")}
+        self._mode = 0       # adaptive stepping: toggled by notifications on the alarm input while the component waits
 
     def _step_at(self, k):
+        if self._mode and self.spec.get("adaptive"):
+            return self.spec["adaptive"]["alt"]
         st = self.spec["steps"]
         return st[k % len(st)]
+
+    def _alarm(self, caller, t):
+        caller.pull_data(t)
+        if tick(t) in self.spec["adaptive"]["at"]:
+            self._mode ^= 1
+            self.world.fault("F4_step_changed_while_waiting")
 
     def _next_time(self):
         if self.spec.get("next_none") and not self.spec["inputs"]:
@@ -157,6 +166,11 @@ class SimComp(TimeComponent):
         s = self.spec
         by_info = bool(self.world.sc.get("api", 0) & 1)      # slots described by Info objects instead of keywords
         for i in s["inputs"]:
+            if i.get("alarm"):
+                # push-based input of an adaptive model: a notification may change the length of the step the
+                # component is about to do (its time stays the same, its announced next time does not)
+                self.inputs.add(CallbackInput(callback=self._alarm, name=i["name"], time=self.time, grid=NoGrid(), units=None))
+                continue
             if i.get("info_at_init", True) and by_info:
                 self.inputs.add(name=i["name"], info=Info(time=self.time, grid=NoGrid(), units=i.get("units")),
                                 static=bool(i.get("static")))
@@ -207,6 +221,8 @@ class SimComp(TimeComponent):
 
     def _pull_all(self, t):
         for ii, i in enumerate(self.spec["inputs"]):
+            if i.get("alarm"):
+                continue
             if self.k in i.get("skip", ()):
                 self.world.fault("F3_skip_pull")
                 continue
